@@ -131,9 +131,63 @@ func c01NonTrivial(seq [][2]int) bool {
 	return hit && len(keys) >= 2
 }
 
+// updateWithoutExpression: UpdateItem needs no UpdateExpression. Without one it "creates the item from the key
+// attributes plus the update" - an item that consists of its key - when the key is absent, and leaves a stored
+// item as it is; with a condition it does so if and only if the condition holds.
+func (p *c01) updateWithoutExpression(x *res, adapter string) {
+	for _, spec := range []adapt.TableSpec{mon.SpecHashOnly("tbl01u"), mon.SpecHashRange("tbl01u")} {
+		for _, present := range []bool{false, true} {
+			for _, cond := range []string{"", "attribute_not_exists(w)", "attribute_exists(w)"} {
+				cl, _, ds := freshClient(adapter, spec)
+				if ds != nil {
+					return
+				}
+				key := mon.KeyFor(spec, "a", "b")
+				stored := key.Clone()
+				stored["v"] = val.Num("1")
+				if present {
+					cl.Do(adapt.Op{Kind: adapt.OpPut, Table: spec.Name, Item: stored})
+				}
+				o := cl.Do(adapt.Op{Kind: adapt.OpUpdate, Table: spec.Name, Key: key, NoUpdate: true, Cond: cond})
+				g := cl.Do(adapt.Op{Kind: adapt.OpGet, Table: spec.Name, Key: key})
+				x.r.Evals += 2
+				x.fp(true, "%s|update-without-expression|%s|%v|%s", adapter, spec.Range, present, cond)
+				x.r.Counters["updates_without_expression"]++
+				want := key.Clone()
+				if present {
+					want = stored
+				}
+				wantClass := adapt.ClsOK
+				if cond == "attribute_exists(w)" {
+					wantClass = adapt.ClsCondFailed
+					if !present {
+						want = nil
+					}
+				}
+				feature := map[bool]string{true: "present", false: "absent"}[present]
+				if cond != "" {
+					feature += "/conditional"
+				}
+				wit := map[string]interface{}{"adapter": adapter, "spec": spec, "present": present, "condition": cond, "outcome": o, "read": g}
+				switch {
+				case o.Class == adapt.ClsRuntime:
+					x.viol("runtime-panic", o.Site, fmt.Sprintf("[%s] UpdateItem without UpdateExpression: runtime panic at %s: %s", adapter, o.Site, o.Msg), wit)
+				case o.Class != wantClass:
+					x.viol("update-without-expression-refused", feature, fmt.Sprintf("[%s] UpdateItem with a key and no UpdateExpression (item %s, condition %q): class %s (%s), want %s", adapter, feature, cond, o.Class, o.Msg, wantClass), wit)
+				case !val.ItemsEqual(g.Item, want):
+					x.viol("update-without-expression-result", feature, fmt.Sprintf("[%s] after UpdateItem with a key and no UpdateExpression (item %s, condition %q, class %s) GetItem returns %s, want %s", adapter, feature, cond, o.Class, g.Item.Canon(), want.Canon()), wit)
+				}
+			}
+		}
+	}
+}
+
 func (p *c01) RunCase(ctx *runner.Ctx) runner.CaseResult {
 	x := newRes()
 	tier := ctx.Tier
+	if ctx.Case < 2 {
+		p.updateWithoutExpression(x, adapt.Adapters[ctx.Case])
+	}
 	blocks := (c01ExhaustiveCount(tier) + c01Block - 1) / c01Block
 	if ctx.Case < blocks*4 {
 		combo := ctx.Case % 4
